@@ -57,6 +57,36 @@ CHECKS = {
              "is_valid, invalid pairs short-circuit to the documented constants. Re-derived the genuine defect F-C14 (TypeError out of Color((None,)*4)), now fixed in /repo.",
         ref="DESIGN 3/C14, 4/F-C14",
         note=TB + "; builtin semantics table of sa/exc.py; numeric-domain exceptions (OverflowError, ZeroDivisionError), RecursionError, MemoryError out of scope; nested sequences as elements are outside the property's domain"),
+    "C01": dict(
+        technique="static deductive verification: value-based guard-fact dataflow over the ast CFG (phi terms at joins, candidate invariants kept iff every predecessor entails them), modular callee contracts, small order/equality/implication prover",
+        category="proof",
+        text="Every return statement of the three strategies, of check_and_fix_contrast (4 premium/large configurations x 3 mode classes) and of make_readable carries the obligations "
+             "flag truthy => contrast(returned colour, bg) >= MIN and flag falsy => contrast < MIN, MIN from the WCAG table of the property; all are discharged on all CFG paths from branch "
+             "facts, definitions and callee contracts. This quantifies over all 2^48 pairs and every configuration at once; a flipped operator or a wrong table entry only matters on a measure-zero set of inputs but is one undischarged obligation here.",
+        ref="DESIGN 3/C01, 2.2",
+        note=TB + "; contracts (sa/contracts.py) transcribe the property; calculate_contrast_ratio / calculate_delta_e_2000 and the colour-preserving format wrappers are uninterpreted (their correctness: C05/C11/C06); A1 no NaN; oklch_to_rgb_safe yields valid 8-bit triples (C10)"),
+    "C02": dict(
+        technique="static deductive verification (same guard-fact engine): accumulator lock-step invariants, monotonicity through callee contracts, early-return dominance",
+        category="proof",
+        text="At every return of the search, the strategies, the dispatcher and make_readable: contrast(result, bg) >= contrast(original, bg); and contrast(original) >= MIN implies the result denotes the "
+             "original colour with success. Proved on all paths (loop invariants inferred as surviving candidates), hence for every pair, spelling-independent.",
+        ref="DESIGN 3/C02",
+        note=TB + "; contracts (sa/contracts.py) transcribe the property; calculate_contrast_ratio / calculate_delta_e_2000 and the colour-preserving format wrappers are uninterpreted (their correctness: C05/C11/C06); A1 no NaN; oklch_to_rgb_safe yields valid 8-bit triples (C10)"),
+    "C04": dict(
+        technique="static deductive verification (same guard-fact engine): tolerance-guard dominance at every recording site, schedule-maximum constant evaluation, chain-of-bounded-steps invariant",
+        category="proof",
+        text="The search routines return None or a valid colour within the tolerance they were given; the multi-phase search stays within max(schedule) (default literal maximum 5.0); mode 0 is within 5.0; "
+             "modes 1/2 only return colours reached from the original by chaining such steps on the caller's background. Obligations at every return, all paths, all arguments (including schedules the library never uses).",
+        ref="DESIGN 3/C04",
+        note=TB + "; contracts (sa/contracts.py) transcribe the property; calculate_contrast_ratio / calculate_delta_e_2000 and the colour-preserving format wrappers are uninterpreted (their correctness: C05/C11/C06); A1 no NaN; oklch_to_rgb_safe yields valid 8-bit triples (C10)"),
+    "C16": dict(
+        technique="static deductive verification (guard-fact engine) for recursive-first and dispatch identity + constant-table relations + use-kind census of min_contrast (ast)",
+        category="other",
+        text="Proves that relaxed returns exactly recursive's (colour, True) whenever recursive succeeds on the same arguments, that the dispatcher hands mode 2 to relaxed and the default arm to recursive with identical "
+             "arguments and returns their result unchanged (so mode 1 success => identical mode 2 result, for all pairs); checks target(very)=target(plain), min(very)>=min(plain) and that the minimum is only ever compared or forwarded. "
+             "The trajectory argument behind 'readable covers very readable' is stated, not proved.",
+        ref="DESIGN 3/C16",
+        note=TB + "; contracts (sa/contracts.py) transcribe the property; calculate_contrast_ratio / calculate_delta_e_2000 and the colour-preserving format wrappers are uninterpreted (their correctness: C05/C11/C06); A1 no NaN; oklch_to_rgb_safe yields valid 8-bit triples (C10)"),
 }
 
 NOT_APPLICABLE = {
